@@ -119,7 +119,7 @@ def run_group(gs):
     for rs in gs["runs"]:
         run = rs.get("run", "A")
         prob, x0, pinfo = build_problem(rs["prob"])
-        if "x0" in rs:
+        if rs.get("x0") is not None:
             x0 = np.asarray(rs["x0"], dtype=float)
         y0 = rs.get("y0", None)
         if y0 is None:
@@ -155,7 +155,9 @@ def run_group(gs):
                 if scaling is not None:
                     from pygradflow.scale import Scaling
 
-                    if scaling[0] == "random":
+                    if scaling[0] == "objonly":
+                        scaling = (np.zeros(prob.num_vars, dtype=int), np.zeros(prob.num_cons, dtype=int), int(scaling[1]))
+                    elif scaling[0] == "random":
                         srng = np.random.default_rng(scaling[1])
                         w = int(scaling[2])
                         scaling = (srng.integers(-w, w + 1, size=prob.num_vars), srng.integers(-w, w + 1, size=prob.num_cons),
